@@ -417,7 +417,12 @@ func (srv *server) registerClient(connect *packets.Connect, client *client) (ses
 	srv.statsManager.clientConnected(client.opts.ClientID)
 
 	if oldSession != nil {
-		if !oldSession.IsExpired(now) && !connect.CleanStart {
+		expired := oldSession.IsExpired(now)
+		if expiredTime, ok := srv.offlineClients[client.opts.ClientID]; ok {
+			// The session expiry interval starts when the network connection is closed, not when it was established.
+			expired = now.After(expiredTime)
+		}
+		if !expired && !connect.CleanStart {
 			sessionResume = true
 		}
 		// clean old session
